@@ -257,19 +257,20 @@ class Trimesh(Geometry3D):
         if self.is_empty:
             return self
 
+        # if we're cleaning remove duplicate and degenerate faces
+        # and repair the winding: this is done before the cache is
+        # locked as every step needs values for the current faces
+        if validate:
+            # get a mask with only unique and non-degenerate faces
+            mask = self.unique_faces() & self.nondegenerate_faces()
+            self.update_faces(mask)
+            self.fix_normals()
+
         # normals are kept across the lock below, so make sure
         # they don't predate an in- place edit of the arrays
         self._cache.verify()
         # avoid clearing the cache during operations
         with self._cache:
-            # if we're cleaning remove duplicate
-            # and degenerate faces
-            if validate:
-                # get a mask with only unique and non-degenerate faces
-                mask = self.unique_faces() & self.nondegenerate_faces()
-                self.update_faces(mask)
-                self.fix_normals()
-
             # since none of our process operations moved vertices or faces
             # we can keep face and vertex normals in the cache without recomputing
             # if faces or vertices have been removed, normals are validated before
